@@ -120,6 +120,9 @@ Step ==
        [] e.e = "QA" -> \* only priority e.p had data, nothing else in flight, nothing released: it must hold all H handlers
                         /\ viol' = viol \cup (IF HeldOf(e, e.p) # Cfg.H THEN {"C06"} ELSE {}) /\ Keep
        [] e.e = "Leak" -> viol' = viol \cup {"C19"} /\ Keep
+       \* end of the verdict phase of a gated run of a simplified discipline: it ended without stop, cancellation or fault, so whatever was
+       \* written to its inputs - also what the producers wrote after a premature end - must have been delivered
+       [] e.e = "Final" -> viol' = viol \cup (IF ec /\ ~stop /\ ~Cfg.fault /\ ~AllDelivered THEN {"C02"} ELSE {}) /\ Keep
        [] e.e = "NoErr" -> viol' = viol \cup {"C15"} /\ Keep
        [] e.e = "SentAfterBad" -> viol' = viol \cup {"C15"} /\ Keep
        \* ---- v1 control plane
